@@ -705,8 +705,9 @@ func display(computer *ComputedStyle, _ pr.KnownProp, _value pr.CssProperty) pr.
 	float_ := computer.specified.Float
 	position := computer.specified.Position
 	if (!position.Bool && (position.String == "absolute" || position.String == "fixed")) || float_ != "none" || computer.isRootElement() {
-		if value == (pr.Display{"inline-table"}) {
-			return pr.Display{"block", "table"}
+		if value[0] == "inline" && (value[1] == "table" || value[1] == "flex" || value[1] == "grid") {
+			// inline-table, inline-flex and inline-grid keep their inner display type
+			return pr.Display{"block", value[1]}
 		} else if d := value[0]; value[1] == "" && value[2] == "" && strings.HasPrefix(d, "table-") {
 			return pr.Display{"block", "flow"}
 		} else if d == "inline" {
